@@ -78,6 +78,12 @@ def check_generate(ctx, rule='C06.RECORD', network_only=False):
                                   '%s account %s (m/%d\'/%d\'/account\', SLIP-132 %s version)' % (name, key, purpose, 1 if tn else 0, name), where)
                     for col, what in enumerate(('path text', 'address (%s)' % addr_kind, 'SEC hex of the compressed key', 'WIF')):
                         got = fl.get("%s['groups'][*][%d]" % (base, col))
+                        if got is None:
+                            # the rows are there but not in a shape this analysis can take apart (not: a wrong value)
+                            grp_ = fl.get("%s['groups']" % base)
+                            ob.undecided('%s rows are built in a form the evaluator cannot take apart into columns (%s); column %d '
+                                         'not compared' % (name, T.show(grp_, maxdepth=3) if grp_ is not None else 'no groups entry', col), where)
+                            continue
                         same_term(ob, T.assume(got, known) if got is not None else None, spec['row'][col],
                                   '%s row column %d: %s of the key at m/%d\'/coin\'/account\'/0/i' % (name, col, what, purpose), where)
                     ob.require("%s['groups'][*][4]" % base not in fl, '%s rows have exactly four columns' % name, where)
@@ -248,3 +254,38 @@ def run(ctx):
         data, ind = S('data', type='dict'), S('indent', type='int')
         v, f = ev.call_function('paper_wallet.PaperWallet.json', [w], {'data': data, 'indent': ind}, facts=Facts().add(T.truth(data)))
         same_term(ob, v, T.raw_op('JSON', data, ind), 'json(data, indent) is json.dumps(data, indent=indent)', fj.where)
+    # every record is produced through a path string the wallet prints and parses back (determine_node_version_int ->
+    # Bip32Path.parse(str(node))): a hardened number the printer can emit must be accepted by the parser, else whole
+    # account blocks are refused instead of produced
+    check_rows_onepass(ctx, 'C06.ONEPASS')
+    from . import C17
+    sub = ctx.__class__('C06', ctx.tier, ctx.p, ctx.seed)
+    C17.run(sub)
+    for o in sub.obligations:
+        if o.rule in ('C17.HRANGE',):
+            o.rule = 'C06.%s(=C17)' % o.rule.split('.')[1]
+            ctx.obligations.append(o)
+
+
+def check_rows_onepass(ctx, rule):
+    """The row builders take `nodes` as an iterable.  Handed a one-shot iterable (a generator of derived nodes, a map
+    object) they must produce the rows they produce for the equal list: a builder that walks `nodes` once per column pairs
+    the path of one node with the address and keys of others."""
+    p = ctx.p
+    PWC = PKG + '.paper_wallet.PaperWallet'
+    for meth in ('bip44_group', 'bip49_group', 'bip84_group'):
+        fi = p.get_function('paper_wallet.PaperWallet.' + meth)
+        with ctx.obligation(rule, 'PaperWallet.' + meth, None, fi.where) as ob:
+            ev = Evaluator(p, 'ecdsa')
+            tn = S('testnet', type='bool')
+            w = mk_wallet(p, 'ecdsa', prv_node()[0], tn, cls=PWC)
+            n1 = prv_node(name='ka', tagname='a')[0]
+            n2 = prv_node(name='kb', tagname='b')[0]
+            vl, _ = ev.call_function('paper_wallet.PaperWallet.' + meth, [w, T.lst([n1, n2])])
+            vi, _ = ev.call_function('paper_wallet.PaperWallet.' + meth, [w, ev.new_iter([n1, n2])])
+            ob.evaluations += 1
+            if T.opaques(_strip_raise(vl)):
+                ob.undecided('%s over a list of two nodes is not computable by the evaluator (%s)' % (meth, '; '.join(T.opaques(vl))[:200]), fi.where)
+                continue
+            same_term(ob, vi, vl, '%s over a one-shot iterable of nodes (generator / map object) gives the rows it gives for the equal list'
+                      % meth, fi.where)
